@@ -775,7 +775,7 @@ fn check_off(c: &SrcCase, env: &Env, st: &mut Stats, root: &SyntaxNode, out: &st
     }
     // metamorphic clause: neutralise the directive(s); lines outside the top-level line groups
     // that contain a disabled node must be identical
-    let s0 = c.src.replace(oracle::off::DIRECTIVE, "@typstyle 0ff");
+    let s0 = oracle::off::neutralise(&c.src, root);
     let out0 = match env.f.format(&s0, &c.cfg) {
         Fmt::Ok(o) => o,
         _ => return Verdict::skip("neutralised-variant-not-formattable"),
@@ -789,16 +789,59 @@ fn check_off(c: &SrcCase, env: &Env, st: &mut Stats, root: &SyntaxNode, out: &st
     let g1 = oracle::off::top_groups(oroot);
     let g0 = oracle::off::top_groups(&root0);
     // does the directive matter? (non-triviality): the neutralised run formats the node differently
-    let matters = out0.replace("@typstyle 0ff", oracle::off::DIRECTIVE) != *out;
+    let matters = out0.replace("@typstyle 0ff", oracle::off::DIRECTIVE) != out.replace("@typstyle 0ff", oracle::off::DIRECTIVE);
     if gi.len() != g1.len() || gi.len() != g0.len() {
         return Verdict::skip("top-level-groups-differ:C01s-business");
     }
-    let affected: Vec<usize> = (0..gi.len())
-        .filter(|&g| dis.iter().any(|d| d.dir_start < gi[g].1 && d.end > gi[g].0))
+    // groups the directive may legitimately influence: those overlapping a disabled node (from its
+    // directive to its end), and -- to stay on the safe side where the statement is silent (a
+    // further comment between directive and node) -- every group holding a directive comment and
+    // the group after it
+    let dir_offsets: Vec<usize> = syn::flatten(root)
+        .iter()
+        .filter(|f| syn::is_comment(f.node.kind()) && f.node.text().contains(oracle::off::DIRECTIVE))
+        .map(|f| f.start)
         .collect();
+    // is a group made of comments only?
+    let comment_only: Vec<bool> = {
+        let mut v = vec![];
+        for &(s, e) in &gi {
+            let mut only = true;
+            let mut off = 0;
+            for ch in root.children() {
+                let (cs, ce) = (off, off + ch.len());
+                off = ce;
+                if cs >= s && ce <= e && ch.kind() != K::Space && !syn::is_comment(ch.kind()) {
+                    only = false;
+                }
+            }
+            v.push(only);
+        }
+        v
+    };
+    let mut mark = vec![false; gi.len()];
+    for g in 0..gi.len() {
+        if dis.iter().any(|d| d.dir_start < gi[g].1 && d.end > gi[g].0) {
+            mark[g] = true;
+        }
+        if dir_offsets.iter().any(|&o| o >= gi[g].0 && o < gi[g].1) {
+            mark[g] = true;
+            // typstyle keeps the directive pending across comments and blank space
+            let mut h = g + 1;
+            while h < gi.len() {
+                mark[h] = true;
+                if !comment_only[h] {
+                    break;
+                }
+                h += 1;
+            }
+        }
+    }
+    let affected: Vec<usize> = (0..gi.len()).filter(|&g| mark[g]).collect();
     let line_of = |text: &str, off: usize| text[..off.min(text.len())].matches('\n').count();
     let l1: Vec<&str> = out.split('\n').collect();
-    let l0: Vec<&str> = out0.split('\n').collect();
+    let out0_restored = out0.replace("@typstyle 0ff", oracle::off::DIRECTIVE);
+    let l0: Vec<&str> = out0_restored.split('\n').collect();
     // walk the unaffected groups pairwise and compare their full lines
     let mut prev_aff_end1 = 0usize; // first line index after the previous affected group
     let mut prev_aff_end0 = 0usize;
